@@ -46,6 +46,8 @@ func tokenize(sourceCode string, cursor *Position) ([]Token, error) {
 
 	var s scanner.Scanner
 	s.Init(strings.NewReader(sourceCode))
+	// the positions keep their own copy of the module name: the caller may reuse its variable
+	cursor = cursor.Copy()
 	if cursor.Module != nil {
 		s.Filename = *cursor.Module
 	}
